@@ -197,7 +197,9 @@ func ZZConcreteInfo(pieceLength uint32, numPieces int, fileLengths []int64, priv
 	}
 	zzPrivateVal = 0
 	if private {
-		zzPrivateVal = 1
+		// any non-zero integer marks the torrent private (BEP 27 says 1; clients treat non-zero as set)
+		zzPrivateVal = vrt.I64("private_flag_value")
+		vrt.Assume(zzPrivateVal != 0)
 		ib.Private = []byte("i1e")
 	}
 	zzInfo = ib
